@@ -80,6 +80,35 @@ def headInRow (row : Str) (ok : Str) : Bool :=
 def rowCheck (t : ConjTable) : Bool :=
   t.all fun ((_, row), arm) => arm.branches.all fun o => o.all (headInRow row)
 
+/-- The euphonic (音便) heads a verb of this class and row has: イ音便 for カ/ガ行五段, 促音便 for タ/ラ/ワ行五段, 撥音便 for
+ナ/バ/マ行五段; no other class or row has any. -/
+def euphonicOf (cls : VerbClass) (row : Str) : List Nat :=
+  match cls, row with
+  | .godan, [0x30AB] => [0x3044]           -- カ: い
+  | .godan, [0x30AC] => [0x3044]           -- ガ: い
+  | .godan, [0x30BF] => [0x3063]           -- タ: っ
+  | .godan, [0x30E9] => [0x3063]           -- ラ: っ
+  | .godan, [0x30EF] => [0x3063]           -- ワ: っ
+  | .godan, [0x30CA] => [0x3093]           -- ナ: ん
+  | .godan, [0x30D0] => [0x3093]           -- バ: ん
+  | .godan, [0x30DE] => [0x3093]           -- マ: ん
+  | _, _ => []
+
+def headIn (row : Str) (extra : List Nat) (ok : Str) : Bool :=
+  match ok with
+  | [] => true
+  | c :: _ => memNat c (rowKana row) || memNat c extra
+
+/-- every okurigana head is in the verb's own row or is one of **its own** euphonic variants; the only arm that looks at
+the stem is カ行五段, which after a stem reading in い takes っ instead of い (行く) -/
+def rowCheckStrict (t : ConjTable) : Bool :=
+  t.all fun ((cls, row), arm) =>
+    match arm with
+    | .lastCharIs c a b =>
+      cls == .godan && row == [0x30AB] && c == 0x3044 &&
+      a.all (headIn row [0x3063]) && b.all (headIn row (euphonicOf cls row))
+    | arm => arm.branches.all fun o => o.all (headIn row (euphonicOf cls row))
+
 def coreCheck (t : ConjTable) : Bool :=
   t.all fun ((cls, row), arm) => !arm.branches.isEmpty && arm.branches.all (coreOk cls row)
 
